@@ -2,6 +2,8 @@
 
 mod byte_code;
 mod cache;
+#[cfg(laythe_verif)]
+pub use cache::verif as verif_cache;
 mod chunk_builder;
 mod fiber;
 pub mod compiler;
